@@ -22,12 +22,14 @@ type (
 )
 
 func newDataStore() *dataStore {
-	return &dataStore{
+	ds := &dataStore{
 		data:           newRedisDict(),
 		cursors:        make(map[int64]*storeKey, 2),
 		cursorsSize:    2,
 		waitingClients: newWaitTable(),
 	}
+	simNewObject(ds)
+	return ds
 }
 
 // creates an object used for data store locking
